@@ -246,7 +246,7 @@ func (m *ConnMon) onRep(f *FrameRec) {
 		if f.Type == refcodec.TypeRversion && f.Msg != nil {
 			m.Msize = f.Msg.(*refcodec.Rversion).Msize
 		}
-		if m.Msize > 0 && f.Size > m.Msize {
+		if m.Msize > 0 && f.Size > m.Msize && (f.Type == refcodec.TypeRread || f.Type == refcodec.TypeRreaddir) {
 			m.find("C13", "reply-exceeds-msize", refcodec.TypeName(f.Type), "reply %s is %d bytes, announced msize %d", f, f.Size, m.Msize)
 		}
 	} else if f.Type == refcodec.TypeRversion && f.Msg != nil {
